@@ -94,6 +94,19 @@ fn alphabet(iface: &Iface) -> Vec<M> {
         msgs.push((Msg::of(vec![f.clone(), Unit::hdr("E"), Unit::hdr("A")]), Some(k.clone())));
         msgs.push((Msg::of(vec![Unit::hdr("E"), f.clone(), Unit::hdr("B")]), Some(k.clone())));
     }
+    // a header whose node exists but has no handler of that kind (query on a command-only node
+    // and the reverse), found at execution time, with the path below the root - as last unit
+    // (the next message must start at the root again), in the middle, and as only unit
+    for units in [
+        vec![Unit::hdr("A:B"), Unit::hdr("E?")],
+        vec![Unit::hdr("A:B"), Unit::hdr("A?"), Unit::hdr(":B?")],
+        vec![Unit::hdr("A:E?")],
+        vec![Unit::hdr("A:A:A"), Unit::hdr("A?")],
+        vec![Unit::hdr("A:D")],
+        vec![Unit::hdr("A:B"), Unit::hdr("D"), Unit::hdr(":E")],
+    ] {
+        msgs.push((Msg::of(units), Some(FaultKind::Undefined)));
+    }
     // faulty messages that also carry a string or block with quote characters in it
     for raw in [&b":Z #13a\"b"[..], &b"@ #11'"[..], &b":ZZ '\"',#12''"[..], &b":A:B! \"'\""[..], &b":Z #3003a'b"[..], &b"@ #201\""[..]] {
         msgs.push((Msg::of(vec![Unit::raw(raw)]), None));
